@@ -49,6 +49,9 @@ func main() {
 		if r.Want("renewal") {
 			renewal(r)
 		}
+		if r.Want("several-orphans") {
+			severalOrphans(r)
+		}
 		if r.Want("purge-refused") {
 			purgeRefused(r)
 		}
